@@ -45,6 +45,24 @@ Fixpoint fold_outs (k : kind) (s : nstate) (l : list arrival) : list (val * md) 
   | a :: t => upd_outs k s a ++ fold_outs k (upd_state k s a) t
   end.
 
+(* no user function raised while folding *)
+Fixpoint fold_ok (k : kind) (s : nstate) (l : list arrival) : bool :=
+  match l with
+  | [] => true
+  | a :: t => match update k s (fst (fst a)) (snd (fst a)) (snd a) with
+              | Some _ => fold_ok k (upd_state k s a) t
+              | None => false
+              end
+  end.
+
+Lemma fold_ok_app k : forall l1 s l2,
+  fold_ok k s (l1 ++ l2) = fold_ok k s l1 && fold_ok k (fold_state k s l1) l2.
+Proof.
+  induction l1 as [|a t IH]; intros s l2; cbn [app fold_ok]; [reflexivity|].
+  destruct (update k s (fst (fst a)) (snd (fst a)) (snd a)); [|reflexivity].
+  rewrite IH. reflexivity.
+Qed.
+
 Lemma fold_state_app k s l1 l2 : fold_state k s (l1 ++ l2) = fold_state k (fold_state k s l1) l2.
 Proof. unfold fold_state. apply fold_left_app. Qed.
 
@@ -144,6 +162,7 @@ Record Segment (g : graph) (n depth : nat) (w : world) (new : list entry) (w' : 
   seg_ent : forall e, In e new -> n <= e_src e /\ n < e_dst e /\ e_dst e < length g /\ depth <= e_depth e;
   seg_along : forall e, In e new -> is_down g (e_src e) (e_dst e) = true;
   seg_state : forall d, nst w' d = fold_state (nkind (gnode g d)) (nst w d) (arr g new d);
+  seg_ok : forall d, fold_ok (nkind (gnode g d)) (nst w d) (arr g new d) = true;
   seg_edge : forall u d, n < u -> is_down g u d = true -> permanent g d = true ->
              edge new u d = fold_outs (nkind (gnode g u)) (nst w u) (arr g new u);
 }.
@@ -163,6 +182,7 @@ Proof.
   - intros e He. apply in_app_or in He as [He|He]; [apply (seg_ent _ _ _ _ _ _ A e He) | apply (seg_ent _ _ _ _ _ _ B e He)].
   - intros e He. apply in_app_or in He as [He|He]; [apply (seg_along _ _ _ _ _ _ A e He) | apply (seg_along _ _ _ _ _ _ B e He)].
   - intros d. rewrite arr_app, fold_state_app, <- (seg_state _ _ _ _ _ _ A d). apply (seg_state _ _ _ _ _ _ B d).
+  - intros d. rewrite arr_app, fold_ok_app, (seg_ok _ _ _ _ _ _ A d), <- (seg_state _ _ _ _ _ _ A d). apply (seg_ok _ _ _ _ _ _ B d).
   - intros u d Hu Hd Hp. rewrite edge_app, arr_app, fold_outs_app.
     rewrite (seg_edge _ _ _ _ _ _ A u d Hu Hd Hp), (seg_edge _ _ _ _ _ _ B u d Hu Hd Hp).
     rewrite <- (seg_state _ _ _ _ _ _ A u). reflexivity.
@@ -172,7 +192,7 @@ Qed.
 Lemma Segment_same g n depth w new w1 w2 :
   Segment g n depth w new w1 -> sts w2 = sts w1 -> log w2 = log w1 -> Segment g n depth w new w2.
 Proof.
-  intros A Hs Hl. destruct A as [a b c d d2 e f].
+  intros A Hs Hl. destruct A as [a b c d d2 e e2 f].
   assert (Hn : forall i, nst w2 i = nst w1 i) by (intros i; unfold nst; rewrite Hs; reflexivity).
   constructor; auto.
   - rewrite Hl. exact a.
@@ -184,11 +204,12 @@ Qed.
 Lemma Segment_same_start g n depth w0 w new w1 :
   Segment g n depth w new w1 -> sts w0 = sts w -> log w0 = log w -> Segment g n depth w0 new w1.
 Proof.
-  intros A Hs Hl. destruct A as [a b c d d2 e f].
+  intros A Hs Hl. destruct A as [a b c d d2 e e2 f].
   assert (Hn : forall i, nst w0 i = nst w i) by (intros i; unfold nst; rewrite Hs; reflexivity).
   constructor; auto.
   - rewrite Hl. exact a.
   - intros i Hi. rewrite Hn. auto.
+  - intros dd. rewrite Hn. auto.
   - intros dd. rewrite Hn. auto.
   - intros u dd Hu Hd Hp. rewrite Hn. auto.
 Qed.
@@ -249,6 +270,7 @@ Record ActSeg (g : graph) (d depth : nat) (w : world) (acts : list action) (new 
   as_ent : forall e, In e new -> d <= e_src e /\ d < e_dst e /\ e_dst e < length g /\ S depth <= e_depth e;
   as_along : forall e, In e new -> is_down g (e_src e) (e_dst e) = true;
   as_state : forall dd, d < dd -> nst w' dd = fold_state (nkind (gnode g dd)) (nst w dd) (arr g new dd);
+  as_ok : forall dd, d < dd -> fold_ok (nkind (gnode g dd)) (nst w dd) (arr g new dd) = true;
   as_edge : forall u dd, d < u -> is_down g u dd = true -> permanent g dd = true ->
             edge new u dd = fold_outs (nkind (gnode g u)) (nst w u) (arr g new u);
   as_out : forall dd, is_down g d dd = true -> permanent g dd = true -> edge new d dd = outs acts;
@@ -284,28 +306,31 @@ Proof.
         - unfold w1. rewrite nst_wset_eq by exact Hlen. apply Hset; [left; reflexivity | exact Hp].
         - unfold w1. rewrite nst_wset_neq by exact Hne. auto. }
       destruct (IH w1 w' Hset' Hwf1 H) as [new S].
-      exists new. destruct S as [a1 a2 a3 a4 a5 a5b a6 a7 a8 a9]. constructor; auto.
+      exists new. destruct S as [a1 a2 a3 a4 a5 a5b a6 a6b a7 a8 a9]. constructor; auto.
       * intros i Hi. rewrite a3 by exact Hi. unfold w1. apply nst_wset_neq. lia.
       * rewrite a4. unfold w1. rewrite nst_wset_eq by exact Hlen. reflexivity.
       * intros dd Hdd. rewrite a6 by exact Hdd. unfold w1. rewrite nst_wset_neq by lia. reflexivity.
+      * intros dd Hdd. rewrite <- (a6b dd Hdd). unfold w1. rewrite nst_wset_neq by lia. reflexivity.
       * intros u dd Hu Hdn Hp. rewrite (a7 u dd Hu Hdn Hp). unfold w1. rewrite nst_wset_neq by lia. reflexivity.
     + (* ARetain *)
       destruct (IH (retain w mm 1) w' Hset' (WF_retain _ _ _ _ Hwf) H) as [new S].
-      exists new. destruct S as [a1 a2 a3 a4 a5 a5b a6 a7 a8 a9]. destruct (retain_frame w mm 1) as [F1 F2].
+      exists new. destruct S as [a1 a2 a3 a4 a5 a5b a6 a6b a7 a8 a9]. destruct (retain_frame w mm 1) as [F1 F2].
       constructor; auto.
       * rewrite a1, F2. reflexivity.
       * intros i Hi. rewrite a3 by exact Hi. apply nst_retain.
       * rewrite a4, nst_retain. reflexivity.
       * intros dd Hdd. rewrite a6 by exact Hdd. rewrite nst_retain. reflexivity.
+      * intros dd Hdd. rewrite <- (a6b dd Hdd), nst_retain. reflexivity.
       * intros u dd Hu Hdn Hp. rewrite (a7 u dd Hu Hdn Hp), nst_retain. reflexivity.
     + (* ARelease *)
       destruct (IH (release w mm 1) w' Hset' (WF_release _ _ _ _ Hwf) H) as [new S].
-      exists new. destruct S as [a1 a2 a3 a4 a5 a5b a6 a7 a8 a9]. destruct (release_frame w mm 1) as [F1 F2].
+      exists new. destruct S as [a1 a2 a3 a4 a5 a5b a6 a6b a7 a8 a9]. destruct (release_frame w mm 1) as [F1 F2].
       constructor; auto.
       * rewrite a1, F2. reflexivity.
       * intros i Hi. rewrite a3 by exact Hi. apply nst_release.
       * rewrite a4, nst_release. reflexivity.
       * intros dd Hdd. rewrite a6 by exact Hdd. rewrite nst_release. reflexivity.
+      * intros dd Hdd. rewrite <- (a6b dd Hdd), nst_release. reflexivity.
       * intros u dd Hu Hdn Hp. rewrite (a7 u dd Hu Hdn Hp), nst_release. reflexivity.
     + (* AEmit *)
       destruct (emitfrom d w y my) as [w1 s1] eqn:E.
@@ -313,7 +338,7 @@ Proof.
       cbn [status_join] in H.
       destruct (HE d w y my w1 Hwf E) as [n1 [S1 [O1 [D1 _]]]].
       destruct (IH w1 w' Hset' (seg_wf _ _ _ _ _ _ S1) H) as [n2 S2].
-      exists (n1 ++ n2). destruct S1 as [b1 b2 b3 b4 b4b b5 b6]. destruct S2 as [a1 a2 a3 a4 a5 a5b a6 a7 a8 a9].
+      exists (n1 ++ n2). destruct S1 as [b1 b2 b3 b4 b4b b5 b5b b6]. destruct S2 as [a1 a2 a3 a4 a5 a5b a6 a6b a7 a8 a9].
       constructor; auto.
       * rewrite a1, b1, rev_app_distr, app_assoc. reflexivity.
       * intros i Hi. rewrite a3 by exact Hi. apply b3. lia.
@@ -322,6 +347,7 @@ Proof.
         destruct (b4 e He) as [? [? [? ?]]]. repeat split; auto.
       * intros e He. apply in_app_or in He as [He|He]; auto.
       * intros dd Hdd. rewrite arr_app, fold_state_app, <- b5. apply a6. exact Hdd.
+      * intros dd Hdd. rewrite arr_app, fold_ok_app, b5b, <- b5. apply a6b. exact Hdd.
       * intros u dd Hu Hdn Hp. rewrite edge_app, arr_app, fold_outs_app.
         rewrite (b6 u dd Hu Hdn Hp), (a7 u dd Hu Hdn Hp), <- b5. reflexivity.
       * intros dd Hdn Hp. rewrite edge_app, (O1 dd Hdn Hp), (a8 dd Hdn Hp). reflexivity.
@@ -441,7 +467,7 @@ Proof.
   assert (Hset : forall st, In (ASet st) acts -> permanent g d = true -> st_detached st = false).
   { intros st Hst Hp. eapply update_detached; eauto. destruct Hwf1 as [_ B]. apply B. exact Hp. }
   destruct (run_actions_spec g emitfrom depth d _ HE Hd acts w1 w2 Hset Hwf1 Er) as [rest S].
-  destruct S as [a1 a2 a3 a4 a5 a5b a6 a7 a8 a9].
+  destruct S as [a1 a2 a3 a4 a5 a5b a6 a6b a7 a8 a9].
   exists rest. split.
   - destruct (release_frame w2 m 1) as [F1 F2].
     assert (Hn2 : forall i, nst (release w2 m 1) i = nst w2 i) by (intros i; apply nst_release).
@@ -460,6 +486,13 @@ Proof.
         rewrite arr_none by (intros e He; destruct (a5 e He) as [_ [? _]]; lia).
         cbn. rewrite Hn1 in Eu. rewrite Eu. reflexivity.
       * rewrite (a6 dd Hgt), Hn1. rewrite arr_cons_miss by (cbn; lia). reflexivity.
+    + intros dd. destruct (lt_eq_lt_dec dd d) as [[Hlt|Heq]|Hgt]; [| subst dd |].
+      * rewrite arr_cons_miss by (cbn; lia). rewrite arr_none; [reflexivity|].
+        intros e He. destruct (a5 e He) as [_ [? _]]. lia.
+      * rewrite arr_cons_hit by reflexivity.
+        rewrite arr_none by (intros e He; destruct (a5 e He) as [_ [? _]]; lia).
+        cbn. rewrite Hn1 in Eu. rewrite Eu. reflexivity.
+      * rewrite arr_cons_miss by (cbn; lia). rewrite <- (a6b dd Hgt). rewrite Hn1. reflexivity.
     + intros u dd Hu Hdd Hp. rewrite edge_cons_miss by (left; cbn; lia).
       destruct (lt_eq_lt_dec u d) as [[Hlt|Heq]|Hgt]; [| subst u |].
       * rewrite edge_none by (intros e He; left; destruct (a5 e He) as [? _]; lia).
